@@ -100,6 +100,153 @@ print(json.dumps({"cases":cases,"fails":fails[:5]}))
 '''
 
 
+WORKER5 = r'''
+import json, signal, sys
+from dask.core import toposort, getcycle, isdag
+def f(*a): pass
+class TO(Exception): pass
+def alarm(*a): raise TO()
+signal.signal(signal.SIGALRM, alarm)
+N, part, nparts, maxedges = (int(x) for x in sys.argv[1:5])
+edges = [(a, b) for a in range(N) for b in range(N) if a != b]
+E = len(edges)
+fails = []; cases = 0
+def reach(g, k):
+    seen = set(); st = [k]
+    while st:
+        x = st.pop()
+        if x in seen: continue
+        seen.add(x); st.extend(g[x])
+    return seen
+def cyclic_within(g, nodes):
+    # Kahn on the induced subgraph
+    indeg = {u: 0 for u in nodes}
+    for u in nodes:
+        for v in g[u]:
+            indeg[v] += 1
+    st = [u for u in nodes if indeg[u] == 0]; n = 0
+    while st:
+        u = st.pop(); n += 1
+        for v in g[u]:
+            indeg[v] -= 1
+            if indeg[v] == 0: st.append(v)
+    return n != len(nodes)
+def bad_cycle(c, g, R):
+    return not (len(c) >= 2 and c[0] == c[-1] and all(c[i + 1] in g[c[i]] for i in range(len(c) - 1)) and set(c) <= R)
+for mask in range(part, 2 ** E, nparts):
+    if bin(mask).count("1") > maxedges: continue
+    g = {a: [] for a in range(N)}
+    for i, (a, b) in enumerate(edges):
+        if mask >> i & 1: g[a].append(b)
+    dsk = {a: (f,) + tuple(g[a]) for a in range(N)}
+    cases += 1
+    signal.setitimer(signal.ITIMER_REAL, 5)
+    try:
+        cyc_all = cyclic_within(g, list(range(N)))
+        try:
+            o = toposort(dsk)
+            if cyc_all or sorted(o) != list(range(N)) or any(o.index(d) > o.index(k) for k in g for d in g[k]):
+                fails.append((g, None, "toposort returned %r" % (o,)))
+        except RuntimeError:
+            if not cyc_all: fails.append((g, None, "toposort raised on an acyclic graph"))
+        for keys in [list(range(N))] + list(range(N)):
+            ks = keys if isinstance(keys, list) else [keys]
+            R = set().union(*[reach(g, k) for k in ks])
+            cyc = cyclic_within(g, sorted(R))
+            try:
+                c = getcycle(dsk, keys); d = isdag(dsk, keys)
+            except TO:
+                raise
+            except Exception as e:
+                fails.append((g, keys, "getcycle raised %r" % (e,))); continue
+            if d != (not c) or bool(c) != cyc or (c and bad_cycle(c, g, R)):
+                fails.append((g, keys, "getcycle -> %r, isdag %r; a cycle is reachable: %r" % (c, d, cyc)))
+    except TO:
+        fails.append((g, None, "does not terminate (5 s)"))
+    signal.setitimer(signal.ITIMER_REAL, 0)
+    if len(fails) >= 3: break
+print(json.dumps({"cases": cases, "fails": fails[:3]}))
+'''
+
+WORKER_TUPLE = r'''
+import itertools, json, sys
+from dask.core import toposort, getcycle, isdag
+def f(*a): pass
+# keys of the usual dask form (name, i), next to keys that are the ELEMENTS of such a tuple
+names = [("x", 0), "x", 0, ("x", 1)]
+N = len(names)
+edges = [(a, b) for a in range(N) for b in range(N)]
+fails = []; cases = 0
+def reach(g, k):
+    seen = set(); st = [k]
+    while st:
+        x = st.pop()
+        if x in seen: continue
+        seen.add(x); st.extend(g[x])
+    return seen
+def has_cycle(g, nodes):
+    color = {}
+    def dfs(u):
+        color[u] = 1
+        for v in g[u]:
+            if color.get(v) == 1: return True
+            if v not in color and dfs(v): return True
+        color[u] = 2; return False
+    return any(u not in color and dfs(u) for u in nodes)
+from dask._task_spec import Task, TaskRef
+for mask in range(2 ** len(edges)):
+    g = {a: [] for a in range(N)}
+    for i, (a, b) in enumerate(edges):
+        if mask >> i & 1: g[a].append(b)
+    gn = {names[a]: [names[b] for b in g[a]] for a in range(N)}
+    dsk = {names[a]: Task(names[a], f, *[TaskRef(names[b]) for b in g[a]]) for a in range(N)}
+    for single in names:
+        cases += 1
+        R = reach(gn, single); cyc = has_cycle(gn, list(R))
+        try:
+            c = getcycle(dsk, single); d = isdag(dsk, single)
+        except Exception as e:
+            fails.append((repr(gn), repr(single), "getcycle raised %r" % (e,))); continue
+        ok = d == (not c) and bool(c) == cyc and (not c or (c[0] == c[-1] and all(c[i + 1] in gn[c[i]] for i in range(len(c) - 1)) and set(c) <= R))
+        if not ok:
+            fails.append((repr(gn), repr(single), "getcycle(single key %r) -> %r, isdag %r; a cycle is reachable: %r" % (single, c, d, cyc)))
+    if len(fails) >= 3: break
+print(json.dumps({"cases": cases, "fails": fails[:3]}))
+'''
+
+
+def _run_workers(cmds, env, label, fails):
+    procs = [subprocess.Popen(c, stdout=subprocess.PIPE, stderr=subprocess.PIPE, text=True, env=env) for c in cmds]
+    cases = 0
+    for c, p in zip(cmds, procs):
+        try:
+            out, err = p.communicate(timeout=6000)
+            r = json.loads(out.strip().splitlines()[-1])
+        except Exception as e:  # noqa
+            fails.append(rtc.Failure("_toposort", {"worker": label}, "exception", "worker", f"worker failed: {e!r} {err[-300:] if 'err' in dir() else ''}"))
+            continue
+        cases += r["cases"]
+        for g, keys, msg in r["fails"]:
+            fails.append(rtc.Failure("_toposort", {"graph": g, "keys": keys, "family": label}, "timeout" if "terminate" in msg else "ensures", "C07", msg))
+    return cases
+
+
+def sweep5(tier, seed=0):
+    """Every digraph on 5 integer-labelled nodes without self-loops (quick: at most 8 edges), start keys: all / each
+    single key.  Integer labels fix the set iteration order, all labelled graphs cover every relative order."""
+    t0 = time.time()
+    fails = []
+    nparts = 14
+    maxedges = 8 if tier == "quick" else 20
+    env = dict(os.environ, PYTHONHASHSEED="0")
+    cases = _run_workers([[sys.executable, "-c", WORKER5, "5", str(i), str(nparts), str(maxedges)] for i in range(nparts)], env, "5 nodes", fails)
+    cases += _run_workers([[sys.executable, "-c", WORKER_TUPLE]], env, "tuple keys given as a single start key", fails)
+    return {"function": "dask/core.py:toposort/getcycle/isdag (real code), 5-node digraphs and tuple start keys", "bounded": True,
+            "bound": {"nodes": 5, "edges": f"<= {maxedges}, no self-loops", "keys": "all keys / every single key", "tuple keys": "every digraph incl. self-loops on the keys ('x',0), 'x', 0, ('x',1), each given as a single start key", "timeout_s": 5},
+            "cases": cases, "distinct_nontrivial": cases, "failures_found": len(fails), "wall_s": round(time.time() - t0, 2),
+            "samples": [{"native_case": {"graph": {"0": [1, 2], "1": [3], "2": [4, 1], "3": [4], "4": [1]}, "keys": 0}}], "failures": fails[:5], "exhaustive": True}
+
+
 def sweep(tier, seed=0):
     t0 = time.time()
     seeds = list(range(8)) if tier == "quick" else list(range(16))
